@@ -102,7 +102,12 @@ def direct(run, driver, n):
         else:
             a = rng.choice([0.5, 0.75, 0.7, 0.9, 0.6])
             q = C.frac(a * (1 + 1 / k)) if a * (1 + 1 / k) < 1 else Fraction(rng.randint(1, 15), 16)
-        df = pd.DataFrame({"last_election_results_x": [float(w) for w in ws]})
+        # the conformalization frame of a real run carries the other baseline columns too (two-party / total turnout weights,
+        # other estimands' baselines): present here with different values, so that reading the wrong column shows
+        other = [float(rng.randint(1, 5000)) for _ in ws]
+        df = pd.DataFrame({"last_election_results_x": [float(w) for w in ws], "baseline_weights": other,
+                           "last_election_results_turnout": [o + 1 for o in other], "baseline_x": [float(w) - 1 for w in ws],
+                           "baseline_turnout": other})
         sc = pd.Series([float(s) for s in scores])
         case = {"direct": True, "scores": [str(s) for s in scores], "weights": ws, "q": str(q)}
         try:
@@ -161,9 +166,15 @@ def leave_one_out(run, driver, n):
         ok = True
         for i in range(k + 1):
             others = scores[:i] + scores[i + 1:]
-            df = pd.DataFrame({"last_election_results_x": [float(w)] * k})
-            c = model._compute_population_correction(df, pd.Series([float(s) for s in others]), float(q), "x")
-            c = C.frac(c)
+            df = pd.DataFrame({"last_election_results_x": [float(w)] * k, "baseline_weights": [float(1 + 7 * j) for j in range(k)],
+                               "baseline_turnout": [float(1 + 7 * j) for j in range(k)]})
+            try:
+                c = C.frac(model._compute_population_correction(df, pd.Series([float(s) for s in others]), float(q), "x"))
+            except Exception as ex:
+                run.violation("population correction raised " + type(ex).__name__, input=case, impl=str(ex)[:200],
+                              predicate="pop_exists", signature="C04:raise")
+                ok = False
+                break
             corrs.append(c)
             want = sorted(others)[math.floor(h)]
             if c != want:
@@ -212,6 +223,21 @@ def end_to_end(run, driver, n):
         model = np_model(features=features, robust=robust)
         if rep.shape[0] < model.get_minimum_reporting_units(alpha) or nonrep.shape[0] == 0:
             continue
+        if rng.random() < 0.4:
+            # close to the minimum the training set is a unit or two: fewer rows than coefficients, smallest calibration sets
+            keep = min(rep.shape[0], model.get_minimum_reporting_units(alpha) + rng.choice([0, 1, 2]))
+            rep = rep.iloc[:keep].reset_index(drop=True)
+            case["reporting_units_kept"] = keep
+        from elexsolver.QuantileRegressionSolver import QuantileRegressionSolver as QRS
+
+        fits = []
+        orig_fit = QRS.fit
+
+        def rec_fit(self_, x, y, *a, **kw):
+            fits.append((kw.get("taus"), np.asarray(x).shape[0], sorted(float(v) for v in np.asarray(y).ravel())))
+            return orig_fit(self_, x, y, *a, **kw)
+
+        QRS.fit = rec_fit
         try:
             with np.errstate(all="ignore"):
                 model.get_unit_predictions(rep, nonrep, est)
@@ -219,10 +245,31 @@ def end_to_end(run, driver, n):
                 raw = model.get_unit_prediction_interval_bounds(rep, nonrep, cf, alpha, est)
                 pi = model.get_unit_prediction_intervals(rep, nonrep, alpha, est)
         except Exception as ex:
+            QRS.fit = orig_fit
             run.violation("get_unit_prediction_intervals raised " + type(ex).__name__, input=case, impl=str(ex)[:200],
                           predicate="pop_exists", signature="C04:raise", election=e.to_json())
             continue
+        QRS.fit = orig_fit
         conf = pi.conformalization
+        # hold-out: the lower / upper regressions are fitted on the reporting units that are NOT calibration units, and on all of them
+        n_rep = rep.shape[0]
+        cal_res = sorted(float(v) for v in conf[f"residuals_{est}"])
+        all_res = sorted(float(v) for v in rep[f"residuals_{est}"])
+        train_res = list(all_res)
+        for v in cal_res:
+            if v in train_res:
+                train_res.remove(v)
+        for taus, rows, ys in fits:
+            if taus == 0.5:
+                continue
+            if rows != n_rep - len(cal_res) or ys != sorted(train_res):
+                run.case(case, True)
+                run.violation("the lower / upper regressions are not fitted on exactly the reporting units outside the calibration set "
+                              "(calibration units are not held out)", input=case,
+                              impl={"tau": taus, "rows_fitted": rows, "reporting": n_rep, "calibration": len(cal_res)},
+                              expected={"rows": n_rep - len(cal_res)}, predicate="split_conformal_count (hold-out)",
+                              signature="C04:holdout", election=e.to_json())
+                break
         w = [C.frac(x) for x in conf[f"last_election_results_{est}"]]
         sc = [max(C.frac(a), C.frac(b)) for a, b in zip(conf["lower_bounds"], conf["upper_bounds"])]
         sw = list(zip(sc, w))
